@@ -1066,7 +1066,8 @@ def run(ctx):
     dump = prefix + ".dump" if os.path.exists(prefix + ".dump") else prefix
     items, nstates = _split_dump(dump, 500)
     ctx.log(f"S2a: {nstates} dumped states in {len(items)} items")
-    res = helpers.run_pool(ctx, "harness.drivers.x07:exec_cases", items, stage="S2", item_timeout=300, procs=12)
+    res = helpers.run_pool(ctx, "harness.drivers.x07:exec_cases", items, stage="S2", item_timeout=300,
+                           procs=12 if quick else 16)
     ops, ocs, forms, ncases, nev, nontriv = {}, {}, {}, 0, 0, 0
     for r in res:
         if not r or "crash" in r:
